@@ -3,6 +3,7 @@ package main
 import (
 	"encoding/json"
 	"fmt"
+	"sync"
 
 	"verifharness/internal/gen"
 	"verifharness/internal/real"
@@ -31,6 +32,7 @@ type pooled struct {
 	item ast.ItemNode
 	data *ast.DataMessage
 	ctl  ast.HSMSMessage
+	base ast.ItemNode // data: the item the message was built around, where the harness knows it
 	snap string
 	born string
 	// kinds of the variables this object is known to hold (from the models the harness built it from);
@@ -377,7 +379,7 @@ func (h *history) step(i int) {
 		} else {
 			wb := []int{0, 2, w}[r.Intn(3)]
 			real.Try(func() {
-				h.add(&pooled{kind: "data", data: ast.NewDataMessage("tmpl", r.Intn(128), f, wb, "H<-E", it), kinds: mk}, op)
+				h.add(&pooled{kind: "data", data: ast.NewDataMessage("tmpl", r.Intn(128), f, wb, "H<-E", it), kinds: mk, base: it}, op)
 			})
 		}
 	case 7: // SetSessionIDAndSystemBytes
@@ -388,7 +390,7 @@ func (h *history) step(i int) {
 		}
 		sys := sliceOf(r, r.Intn(7))
 		o := real.Try(func() {
-			h.add(&pooled{kind: "data", data: p.data.SetSessionIDAndSystemBytes(r.Intn(65536), sys), kinds: p.kinds}, op)
+			h.add(&pooled{kind: "data", data: p.data.SetSessionIDAndSystemBytes(r.Intn(65536), sys), kinds: p.kinds, base: p.base}, op)
 		})
 		if !o.Panicked && len(sys) > 0 {
 			scribbleBytes(sys)
@@ -401,7 +403,9 @@ func (h *history) step(i int) {
 		}
 		if r.Bool() {
 			op = "producer/wait"
-			real.Try(func() { h.add(&pooled{kind: "data", data: p.data.SetWaitBit(r.Bool()), kinds: p.kinds}, op) })
+			real.Try(func() {
+				h.add(&pooled{kind: "data", data: p.data.SetWaitBit(r.Bool()), kinds: p.kinds, base: p.base}, op)
+			})
 			return
 		}
 		op = "fill/message"
@@ -418,8 +422,31 @@ func (h *history) step(i int) {
 		for k, v := range m {
 			m2[k] = v
 		}
+		// a sibling derived from the same message with OTHER values, and encoded before this fill's result is ever
+		// looked at (whatever siblings share, it is not their encoding)
+		other := map[string]interface{}{}
+		for k := range m {
+			kk, known := p.kinds[k]
+			other[k] = h.fillValue(kk, known)
+		}
+		real.Try(func() { _ = p.data.FillVariables(other).SetWaitBit(false).ToBytes() })
 		var n1 *ast.DataMessage
 		o := real.Try(func() { n1 = p.data.FillVariables(m) })
+		// the same message by another route: the item filled on its own, a fresh message around it, the same stamp
+		var viaItem *ast.DataMessage
+		if p.base != nil && !o.Panicked {
+			m3 := map[string]interface{}{}
+			for k, v := range m {
+				m3[k] = v
+			}
+			real.Try(func() {
+				w := map[string]int{"false": 0, "true": 1, "optional": 2}[p.data.WaitBit()]
+				viaItem = ast.NewDataMessage(p.data.Name(), p.data.StreamCode(), p.data.FunctionCode(), w, p.data.Direction(), p.base.FillVariables(m3))
+				if p.data.SessionID() != -1 {
+					viaItem = viaItem.SetSessionIDAndSystemBytes(p.data.SessionID(), p.data.SystemBytes())
+				}
+			})
+		}
 		for k := range m {
 			m[k] = "scribbled"
 		}
@@ -444,6 +471,17 @@ func (h *history) step(i int) {
 				cs.Trace = append([]string(nil), h.trace...)
 				h.c.Violation("C11/result-follows-the-fill-map-after-the-call/message", fmt.Sprintf("FillVariables(m), then m overwritten, then the result read for the first time: %s %s; the same fill from an untouched copy: %s %s", clipS(s1), o1, clipS(s2), o2), cs)
 				return
+			}
+			if viaItem != nil {
+				h.c.Class("message-fill-compared-with-the-item-route")
+				if d := real.Snap(n1).Diff(real.Snap(viaItem)); d != "" {
+					h.bad = true
+					cs := h.cs
+					cs.FailedStep = i
+					cs.Trace = append([]string(nil), h.trace...)
+					h.c.Violation("C11/message-fill-differs-from-the-item-route", fmt.Sprintf("a message filled after a sibling (same template, other values) had been filled and encoded differs from the message built around the separately filled item: %s", d), cs)
+					return
+				}
 			}
 			real.Try(func() {
 				h.add(&pooled{kind: "data", data: n1, kinds: remainingKinds(p.kinds, n1.Variables())}, op)
@@ -635,7 +673,56 @@ func runC11(c *ctx) {
 			c.Sample(map[string]interface{}{"history_seed": seed, "steps": 200, "scribbles": scr})
 		}
 	})
-	c.Required = []string{"scribbled/factory-args", "scribbled/fill-map", "scribbled/system-bytes-arg", "scribbled/returned-bytes", "scribbled/returned-variables", "scribbled/returned-system-bytes", "scribbled/control-header-arg", "scribbled/decoder-input", "op/parse/sml", "fill-accepted"}
+	// observers change nothing, also when several of them look at a fresh object at the same moment: every one of them
+	// gets what a twin observed alone gives, and the object is what it was afterwards
+	for round := 0; round < c.pick(60, 600); round++ {
+		rr := rng.New(uint64(77000 + round))
+		n := 200 + rr.Intn(2000)
+		mk := func() ast.ItemNode {
+			kids := make([]interface{}, n)
+			for i := range kids {
+				switch i % 3 {
+				case 0:
+					kids[i] = ast.NewUintNode(2, i)
+				case 1:
+					kids[i] = ast.NewASCIINode(fmt.Sprintf("row %d", i))
+				default:
+					kids[i] = ast.NewListNode(ast.NewBinaryNode(i%256), ast.NewBooleanNode(i%2 == 0))
+				}
+			}
+			return ast.NewListNode(kids...)
+		}
+		shared, twin := mk(), mk()
+		want := real.SnapItem(twin)
+		got := make([]real.ItemSnap, 8)
+		var wg sync.WaitGroup
+		start := make(chan struct{})
+		for g := range got {
+			wg.Add(1)
+			go func(g int) {
+				defer wg.Done()
+				<-start
+				got[g] = real.SnapItem(shared)
+			}(g)
+		}
+		close(start)
+		wg.Wait()
+		c.NoteBulk(8, 8)
+		c.Class("shared-item-observed-by-several-goroutines")
+		after := real.SnapItem(shared)
+		for g := range got {
+			if d := got[g].Diff(want); d != "" {
+				c.Violation("C11/observer-result-differs-when-others-observe", fmt.Sprintf("a fresh list of %d items read by 8 goroutines at once: goroutine %d got %s", n, g, d), c11Case{HistorySeed: uint64(round)})
+				round = 1 << 30
+				break
+			}
+		}
+		if d := after.Diff(want); d != "" && round < 1<<30 {
+			c.Violation("C11/changed/item/after-concurrent-observers", fmt.Sprintf("a list of %d items differs from its twin after 8 goroutines read it at once: %s", n, d), c11Case{HistorySeed: uint64(round)})
+			break
+		}
+	}
+	c.Required = []string{"scribbled/factory-args", "scribbled/fill-map", "scribbled/system-bytes-arg", "scribbled/returned-bytes", "scribbled/returned-variables", "scribbled/returned-system-bytes", "scribbled/control-header-arg", "scribbled/decoder-input", "op/parse/sml", "fill-accepted", "message-fill-compared-with-the-item-route", "shared-item-observed-by-several-goroutines"}
 }
 
 func replayC11(c *ctx, raw json.RawMessage) {
